@@ -29,7 +29,7 @@ ASSUMPTIONS = [
     "an interval that merely touches a period boundary or has zero length leaves the period unconstrained when it is invalid",
     "a period not fully covered by observations has no defined average: any non-missing value is a violation",
     "negative means < -1e-8 (kernel tolerance); alphabet values are far from that threshold",
-    "tz-aware indexes are compared on local wall-clock time with zones without DST transitions in the test window",
+    "tz-aware indexes are compared on local wall-clock time: the result for an aware index must be the result for the naive index with the same wall-clock stamps, also for zones whose clocks change during the series (Australia/Sydney forward and back, America/New_York forward; stamps inside the skipped / repeated hour cannot be expressed and are left out)",
 ]
 T0 = 978307200          # 2001-01-01 00:00:00 UTC, on the hour
 VALS = [0.0, 1.0, 2.5, -1.0, float("nan")]
@@ -173,23 +173,30 @@ def oracle(stamps, vals, P, rainfall, G):
     return nvalh, hs, out
 
 
-def make_series(stamps, vals, unit="ns", tz=None, default_range=False):
-    secs = np.array(stamps, dtype=np.int64) + T0
+def make_series(stamps, vals, unit="ns", tz=None, default_range=False, t0=None):
+    secs = np.array(stamps, dtype=np.int64) + (T0 if t0 is None else t0)
     idx = pd.DatetimeIndex(secs.astype("datetime64[s]").astype("datetime64[%s]" % unit))
     if tz is not None:
-        idx = idx.tz_localize(tz)
+        idx = idx.tz_localize(tz)        # raises for wall-clock times that do not exist / are ambiguous in the zone
     return pd.Series(np.array(vals, dtype=np.float64), index=idx)
 
 
 def run_case(ctx, dutils, stamps, vals, P, rainfall, G, variant=None, judged_sample=None):
     case = {"stamps": list(stamps), "vals": [None if math.isnan(v) else v for v in vals], "P": P,
             "rainfall": rainfall, "G": G, "variant": variant}
-    unit, tz = "ns", None
+    unit, tz, t0 = "ns", None, T0
     if variant:
-        unit, tz = variant.get("unit", "ns"), variant.get("tz")
-    se = make_series(stamps, vals, unit, tz)
+        unit, tz, t0 = variant.get("unit", "ns"), variant.get("tz"), variant.get("t0", T0)
+    try:
+        se = make_series(stamps, vals, unit, tz, t0=t0)
+    except Exception as e:
+        if variant and variant.get("dst"):
+            # a stamp falls into the hour that does not exist / exists twice on the day the clocks change
+            ctx.count("variant.dst.stamp-not-localizable")
+            return None
+        raise
     nvalh, hs, exp = oracle(stamps, vals, P, rainfall, G)
-    vtag = "" if not variant else ":unit=%s:tz=%s" % (unit, "naive" if tz is None else "aware")
+    vtag = "" if not variant else ":unit=%s:tz=%s%s" % (unit, "naive" if tz is None else "aware", ":clock-change" if variant.get("dst") else "")
     try:
         res = dutils.var2h(se, nbsec_per_period=P, maxgapsec=G, rainfall=bool(rainfall))
     except Exception as e:
@@ -204,7 +211,7 @@ def run_case(ctx, dutils, stamps, vals, P, rainfall, G, variant=None, judged_sam
         return out
     # index: starts on the hour after the first stamp, regular
     if nvalh:
-        first = pd.Timestamp(T0 + hs, unit="s")
+        first = pd.Timestamp(t0 + hs, unit="s")
         idx = res.index
         if getattr(idx, "tz", None) is not None:
             idx = idx.tz_localize(None)
@@ -304,6 +311,18 @@ def variant_cases(unit):
 
 
 VARIANTS = [{"unit": u, "tz": tz} for u in ("s", "ms", "us", "ns") for tz in (None, "UTC", "+10:00", "Australia/Brisbane")]
+
+
+def _wall(txt):
+    return int(pd.Timestamp(txt).value // 10 ** 9)
+
+
+# zones whose clocks change two hours after the first possible stamp: the series is given in local wall-clock time
+# (stamps inside the skipped / repeated hour cannot be expressed and are left out); the result must be the one of
+# the naive index with the same wall-clock stamps
+DST_VARIANTS = [{"unit": "ns", "tz": "Australia/Sydney", "t0": _wall("2001-10-28 00:00:00"), "dst": "forward"},
+                {"unit": "s", "tz": "Australia/Sydney", "t0": _wall("2001-03-25 00:00:00"), "dst": "back"},
+                {"unit": "us", "tz": "America/New_York", "t0": _wall("2001-04-01 00:00:00"), "dst": "forward"}]
 
 
 def check_longspan(ctx, dutils, unit):
@@ -416,6 +435,17 @@ def run_unit(unit, ctx):
                                 "rainfall": rainfall, "G": G, "variant": var}
                         ctx.violation("var2h:variant-differs:unit=%s:tz=%s" % (var["unit"], "naive" if var["tz"] is None else "aware"), case,
                                       "result depends on index storage: %s (unit=%s tz=%s) vs %s (naive ns)" % (out.tolist(), var["unit"], var["tz"], ref.tolist()))
+            for var in DST_VARIANTS:
+                refd = run_case(ctx, dutils, stamps, vals, P, rainfall, G, variant={"unit": "ns", "tz": None, "t0": var["t0"]})
+                out = run_case(ctx, dutils, stamps, vals, P, rainfall, G, variant=var)
+                if refd is not None and out is not None and len(out) == len(refd):
+                    ctx.count("variant.dst.compared")
+                    if not np.array_equal(out, refd, equal_nan=True):
+                        case = {"stamps": list(stamps), "vals": [None if math.isnan(v) else v for v in vals], "P": P,
+                                "rainfall": rainfall, "G": G, "variant": var}
+                        ctx.violation("var2h:variant-differs:tz=aware:clock-change", case,
+                                      "result depends on the time zone: %s (%s, clocks go %s during the series) vs %s (naive index, same "
+                                      "wall-clock stamps)" % (out.tolist(), var["tz"], var["dst"], refd.tolist()))
             # the default index produced by date_range (regular stamps only)
             if len(set(np.diff(stamps))) == 1 and np.diff(stamps)[0] > 0:
                 idx = pd.date_range(pd.Timestamp(T0 + stamps[0], unit="s"), periods=len(stamps), freq="%ds" % int(np.diff(stamps)[0]))
@@ -475,6 +505,11 @@ def replay(case):
         out = dutils.var2h(pd.Series(np.array(vals), index=idx), nbsec_per_period=case["P"], maxgapsec=case["G"], rainfall=bool(case["rainfall"])).values
         if not np.array_equal(out, ref, equal_nan=True):
             ctx.violation("var2h:variant-differs:date_range-default", case, "differs")
+    elif var and var.get("dst"):
+        refd = run_case(ctx, dutils, case["stamps"], vals, case["P"], case["rainfall"], case["G"], variant={"unit": "ns", "tz": None, "t0": var["t0"]})
+        out = run_case(ctx, dutils, case["stamps"], vals, case["P"], case["rainfall"], case["G"], variant=var)
+        if refd is not None and out is not None and not np.array_equal(out, refd, equal_nan=True):
+            ctx.violation("var2h:variant-differs:tz=aware:clock-change", case, "differs")
     else:
         ref = run_case(ctx, dutils, case["stamps"], vals, case["P"], case["rainfall"], case["G"])
         if var:
